@@ -34,3 +34,6 @@ Proof. vm_compute. reflexivity. Qed.
 
 Lemma padding_length : length PADDING = 32%nat.
 Proof. vm_compute. reflexivity. Qed.
+
+Lemma identity_name_as_modelled : crypt_identity_name = identity_name.
+Proof. vm_compute. reflexivity. Qed.
